@@ -471,7 +471,22 @@ func engineJSON(rc *RunCtx) *Outcome {
 				continue
 			}
 			// complete, valid request: equivalence with the direct run
-			ref := directRun(desc, got.Name, &got, T)
+			var ref directResult
+			var refPanic interface{}
+			func() {
+				defer func() { refPanic = recover() }()
+				ref = directRun(desc, got.Name, &got, T)
+			}()
+			if refPanic != nil {
+				// the direct run cannot even be set up with these values (e.g. initial states
+				// cannot be allocated): the runner must describe the problem
+				o.Checks++
+				if !isErrorDoc || !nonEmptyLog {
+					o.fail("problem-not-described", "problem-not-described", "%s: a direct run panics while being set up (%v); the runner must answer with a document that describes the problem, got %q", got.Name, refPanic, head64(wr.buf.Bytes(), 300))
+					return
+				}
+				continue
+			}
 			if isErrorDoc {
 				o.fail("differs-from-direct-run", "no-results/"+got.Name, "%s: valid request answered without results: %q", got.Name, head64(wr.buf.Bytes(), 300))
 				return
